@@ -562,7 +562,10 @@ func (r *Reconciler) Reconcile(ctx context.Context, req reconcile.Request) (reco
 		return reconcile.Result{}, errors.Wrap(r.client.Status().Update(ctx, pr), errUpdateStatus)
 	}
 
-	if r.features.Enabled(features.EnableAlphaSignatureVerification) {
+	// The signature verification controller only verifies active revisions, so
+	// an inactive revision must not wait for a verdict. It still needs to be
+	// deactivated, e.g. to be removed from the lock.
+	if r.features.Enabled(features.EnableAlphaSignatureVerification) && pr.GetDesiredState() != v1.PackageRevisionInactive {
 		// Wait for signature verification to complete before proceeding.
 		if cond := pr.GetCondition(v1.TypeVerified); cond.Status != corev1.ConditionTrue {
 			log.Debug("Waiting for signature verification controller to complete verification.", "condition", cond)
